@@ -428,7 +428,17 @@ def modelFlow : Gen.StoreFlow.Flow :=
   { sharedImportFromCounter := true, sharedCounterAdvancesByLen := true, sharedBlankFromCounter := true,
     sharedDelGraphKeepsCounter := true, sharedDelAllKeepsCounter := true, disjointImportFromOne := true,
     disjointCounterAfterImportLenPlusOne := true, disjointBlankFromCounter := true, disjointDelGraphKeepsCounter := true,
-    disjointDelAllKeepsCounters := true, disjointPresentMeansHasNodes := true, disjointDirectImportReplaces := true }
+    disjointDelAllKeepsCounters := true, disjointPresentMeansHasNodes := true, disjointDirectImportReplaces := true,
+    sharedStoreSurvivesNewImporter := true, disjointStoreSurvivesNewImporter := true }
+
+/-- making an importer (`NetworkXGraphImporter(logger=…)` → the singleton shell `NetworkXGraphStorage.__init__`): the process
+    has at most ONE store object; the shell creates it when there is none and otherwise leaves the existing one alone, whatever
+    arguments the importer is given (with / without a logger, after a first importer with / without one).  `cur` = the store
+    of the process so far.  What the code does is *read* from the generated flag (`gen/storeflow.py` `probe_importers`). -/
+def enter (cur : Option Store) : Store :=
+  match cur with
+  | none => init
+  | some s => if Gen.StoreFlow.flow.sharedStoreSurvivesNewImporter then s else init
 
 /-- every lookup of the model filters on `GraphID` (`inG g`): `_find_node` (`findNode`), `_find_all_nodes` (`nodesOf`),
     `node_exists`, the `add_node` guard, the class / type listings, `check_node_unique`, `graph_exists`,
